@@ -1,4 +1,4 @@
-PROP = {"engines": [("array", "default")],
+PROP = {"engines": [("array", "default"), ("sized", "default")],
         "level_text": "Coq theorems C01_step_refines / C01_run_refines: every operation of cc_array.c (add, add_at, replace_at, swap_at, remove, remove_at, remove_last, "
                       "remove_all, get_at, get_last, index_of, contains, reverse, filter_mut, trim, size) from any state satisfying the invariant, for every index below 2^64, "
                       "every element value, predicate, capacity >= 1 and factor, either equals the ideal-list step (status, out-value, contents) or is a refused allocation that "
@@ -6,6 +6,6 @@ PROP = {"engines": [("array", "default")],
                       "transcribed and proved equal to rev / filter; growth and trim preserve contents. All range and growth guards are regenerated from cc_array.c on every run. "
                       "The model (also map, reduce, sort glue, contains_value, subarray/copies/filter, iterators, zip iterators, CC_Stack) is run against the compiled code on "
                       "exhaustive short histories, every boundary index on sizes 0-5, iterator programs, fault plans and random long histories.",
-        "assumptions": ["CC_ArraySized (the byte-copy twin of CC_Array) is repaired by the same fix commits but is not yet modelled: its part of C01 is not claimed by this check",
+        "assumptions": ["CC_ArraySized is tied to the same model by correspondence: an element of 1, 3 or 8 bytes is the little-endian image of a number, the caller's buffer is overwritten after every call (private copy), and the whole CC_Array trace scope (minus reduce / contains_value / copy_deep, which the sized API lacks or types differently) is replayed on cc_array_sized.c; the theorems are about the shared model",
                         "float expansion factor modelled as an exact rational (T5)", "limit*factor < 2^64 and limit < 2^64-16 for the growth theorems (capacity*8 must not wrap)",
                         "qsort is represented by a sorting function parameter (T6)"]}
